@@ -112,6 +112,9 @@ func (c *Ctx) QaGuardAny(fnName string, sel Sel, alts ...[]string) bool {
 				break
 			}
 		}
+		if !good && guardedByPaths(in.Parent(), parsed, ins) {
+			good = true
+		}
 		if !good {
 			c.Fail(rule, construct, InstrPos(in), fmt.Sprintf("site `%s` is not dominated by any of the required tests; facts here: {%s}", DescribeInstr(in), factStrings(fs)))
 			return false
